@@ -14,7 +14,7 @@ timeout 120 /venv/bin/python _demo.py >/dev/null 2>&1; A=$?
 git apply "$SEED/patch.diff" || { echo "RESULT seed=$SEED patch-does-not-apply"; exit 3; }
 timeout 120 /venv/bin/python _demo.py >/dev/null 2>&1; B=$?
 if [ -z "$SKIP_SUITE" ]; then
-  T=$(timeout 900 /venv/bin/python -m pytest -q -p no:cacheprovider --timeout=900 -q 2>&1 | tail -1)
+  mkdir -p /tmp/sv/tmp_$NAME; T=$(TMPDIR=/tmp/sv/tmp_$NAME timeout 900 /venv/bin/python -m pytest -q -p no:cacheprovider --timeout=900 -q 2>&1 | tail -1)
 else T="(suite skipped)"; fi
 echo "CONFIRM seed=$SEED demo_clean_rc=$A demo_patched_rc=$B suite='$T'"
 rm -f "$WT/_demo.py"
